@@ -118,7 +118,7 @@ def gen_plan(rng, tier, run):
         for o in ops:
             if o["mode"] in ("-d", "-i") and rng.random() < 0.6 and c < 0.25:
                 o["arg"] = dname[-10:-2] if dname.endswith(".d") else dname[-8:]
-    return {"tree": tree, "ops": ops, "dname": dname, "fresh": rng.random() < 0.4}
+    return {"tree": tree, "ops": ops, "dname": dname, "fresh": rng.random() < 0.4, "bmc": rng.random() < 0.25}
 
 
 def argv_of(op, dname="D"):
@@ -191,8 +191,10 @@ def execute(plan):
     def canon(snap):
         # snapshots are reported with the directory called D again
         return {("D" + p[len(dname):] if p == dname or p.startswith(dname + "/") else p): v for p, v in snap.items()}
-    with World() as w:
+    with World(bmc=plan.get("dname", "D") if plan.get("bmc") else None) as w:
         w.fresh_per_run = bool(plan.get("fresh"))
+        if plan.get("bmc"):
+            bump("environment:bmc")
         bump("process_model:fresh" if w.fresh_per_run else "process_model:shared")
         for t in plan["tree"]:
             if t.get("dir"):
